@@ -169,6 +169,22 @@ def gen_decl_package(W, rng, full=False):
     W.add("d", "types.go", Decl("hidden", ["type hidden struct{ V int }"], doc=pick([["// @constructor newHidden", "// @immutable"], ["// @constructor newHidden"], ["// @immutable"], ["// hidden is plain."]])))
     W.add("d", "types.go", Decl("HiddenList", ["type HiddenList []hidden", "type HiddenPtrs []*hidden", "type HiddenAlias = hidden"]))
     W.add("d", "funcs.go", Decl("newHidden", ["func newHidden() *hidden { return &hidden{} }", "func GetHidden() *hidden { return newHidden() }"]))
+    # a second annotated type whose constructor also touches the FIRST type: the exemption is per (function, type)
+    W.add("d", "types.go", Decl("V", ["type V struct{ G int }"], doc=pick([["// @immutable", "// @constructor NewV"], ["// @constructor NewV"], ["// @immutable"]])))
+    W.add("d", "funcs.go", Decl("NewV", ["func NewV(t *T, hd *hidden) *V {", "	/*@" + W.wid + "d-newv-own:exempt*/ v := &V{}", "	/*@" + W.wid + "d-newv-own-write:exempt*/ v.G = 1",
+                                         "	/*@" + W.wid + "d-newv-foreign-write:imm-assign*/ t.F = 2", "	/*@" + W.wid + "d-newv-foreign-inc:imm-incdec*/ t.F++",
+                                         "	/*@" + W.wid + "d-newv-foreign-lit:ctor-lit*/ _ = T{}", "	/*@" + W.wid + "d-newv-hidden-write:imm-assign*/ hd.V = 3",
+                                         "	func() {", "		/*@" + W.wid + "d-newv-closure-write:imm-assign*/ t.Xs[0] = 4", "	}()", "	return v", "}"]))
+    # parenthesised type groups: a member's own doc belongs to that member only; the group's doc to members without one
+    W.add("d", "types.go", Decl("group1", ["type (", "	// GA is annotated.", "	// @immutable", "	// @constructor NewGA", "	// @testonly", "	GA struct{ F int }", "",
+                                           "	GB struct{ F int }", "", "	// GC has a plain doc.", "	GC struct{ F int }", ")"]))
+    W.add("d", "types.go", Decl("group2", ["type (", "	GD struct{ F int }", "", "	// @packageonly nobody", "	GE struct{ F int }", ")"],
+                                doc=pick([["// the whole group is annotated", "// @immutable"], ["// @constructor NewGD"], ["// plain group doc"]])))
+    W.add("d", "funcs.go", Decl("groupuse", ["func NewGA() *GA { return &GA{} }", "func NewGD() *GD { return &GD{} }",
+                                             "func GroupUse(a *GA, b *GB, c *GC, dd *GD, e *GE) {", "	/*@" + W.wid + "d-grp-a:imm-assign*/ a.F = 1", "	/*@" + W.wid + "d-grp-b:imm-assign*/ b.F = 1",
+                                             "	/*@" + W.wid + "d-grp-c:imm-assign*/ c.F = 1", "	/*@" + W.wid + "d-grp-d:imm-assign*/ dd.F = 1", "	/*@" + W.wid + "d-grp-e:imm-assign*/ e.F = 1",
+                                             "	/*@" + W.wid + "d-grp-lit-a:ctor-lit*/ _ = GA{}", "	/*@" + W.wid + "d-grp-lit-b:ctor-lit*/ _ = GB{}", "	/*@" + W.wid + "d-grp-lit-d:ctor-lit*/ _ = GD{}",
+                                             "	/*@" + W.wid + "d-grp-lit-e:ctor-lit*/ _ = GE{}", "}"]))
     # an unannotated method that shares its name with a @testonly function of the package
     W.add("d", "funcs.go", Decl("U.Mock", ["func (u *U) Mock() int {", "\t/*@" + W.wid + "d-method-named-like-testonly:tonl-func*/ return Mock()", "}"]))
 
@@ -451,7 +467,7 @@ def c14_world(rng, wid, modroot="w", stats=None):
 # ------------------------------------------------------------------------------------------------
 # rendering
 
-ANCHORS = {"d": "Free", "m": "Anchor", "p1": "Anchor", "p2": "Anchor", "api": "GetT"}
+ANCHORS = {"d": "Free", "m": "Anchor", "p1": "Anchor", "p2": "Anchor", "api": "GetT", "a": "Anchor"}
 
 
 def render(W, outdir, rng=None, layout=None, edit=None):
